@@ -330,8 +330,8 @@ Qed.
 (* ---- conversion succeeds ------------------------------------------------------------------------------ *)
 Theorem convert_accepts : forall e, quantified e -> exists fl, convert e = Ok (expand_with e fl).
 Proof.
-  intros e Q. destruct (expand_accepts e Q) as [fl Hx]. exists fl. unfold convert. rewrite Hx, (q_no_list e Q).
-  rewrite (closed_holds e fl Q), (fields_ok_holds e Q), (query_params_holds e Q), (command_params_holds e Q).
+  intros e Q. destruct (expand_accepts e Q) as [fl Hx]. exists fl. unfold convert. rewrite Hx.
+  rewrite (closed_holds e fl Q), (fields_ok_holds e Q), (query_params_holds e Q), (command_params_holds e Q), (q_no_list e Q).
   reflexivity.
 Qed.
 
@@ -379,9 +379,13 @@ Qed.
 
 (* ---- the scope of a message of user fields -------------------------------------------------------------- *)
 Lemma of_ufield_facts : forall u,
-  f_json (of_ufield u) = uf_name u /\ f_optional (of_ufield u) = uf_optional u
+  f_json (of_ufield u) = uf_name u /\ f_optional (of_ufield u) = sp_presence u
   /\ is_map_field (of_ufield u) = is_map_kind u.
-Proof. intros [n k r o]. unfold of_ufield, is_map_kind, is_map_field. cbn [uf_kind]. destruct k as [pt j|m|m|m|p f t|tn j|i|i|sfs|sfs|os]; cbn; repeat split; try reflexivity; destruct i; reflexivity. Qed.
+Proof.
+  intros [n k r o]. unfold of_ufield, is_map_kind, is_map_field, sp_presence, is_repeated_kind. cbn [uf_kind uf_optional].
+  destruct k as [pt j|m|m|m|p f t|tn j|i|i|sfs|sfs|os]; cbn; repeat split;
+    try reflexivity; try (now rewrite andb_true_r); try (now rewrite andb_false_r); destruct i; reflexivity.
+Qed.
 
 Lemma no_inline_names : forall fs, Forall (fun f => f_inline f = None) fs -> inline_names fs = [] /\ inline_scopes fs = [].
 Proof.
@@ -406,7 +410,7 @@ Qed.
 Lemma user_scope : forall fs, fields_scope false (map of_ufield fs) = sp_field_scope fs.
 Proof.
   intros fs. unfold fields_scope, sp_field_scope, entry_names, proto_name.
-  rewrite (filter_map_comm of_ufield f_optional uf_optional) by (intros x; apply of_ufield_facts).
+  rewrite (filter_map_comm of_ufield f_optional sp_presence) by (intros x; apply of_ufield_facts).
   rewrite (filter_map_comm of_ufield is_map_field is_map_kind) by (intros x; apply of_ufield_facts).
   rewrite !map_map. f_equal; [|f_equal]; apply map_ext; intros u; destruct (of_ufield_facts u) as [-> _]; reflexivity.
 Qed.
@@ -468,7 +472,7 @@ Definition type_free (fs : list ufield) : Prop :=
 
 Lemma type_free_of : forall e fs, reserved_free e = true -> (forall u, In u fs -> In u (all_ufields e)) -> type_free fs.
 Proof.
-  intros e fs Hr Hin u Hu. destruct (reserved_free_parts e Hr) as [_ [_ [_ [_ [_ [_ [_ R]]]]]]].
+  intros e fs Hr Hin u Hu. destruct (reserved_free_parts e Hr) as [_ [_ [_ [_ [_ [_ R]]]]]].
   rewrite forallb_forall in R. specialize (R u (Hin u Hu)). destruct (uf_kind u); try exact I. exact R.
 Qed.
 
@@ -565,7 +569,7 @@ Proof.
 Qed.
 
 Lemma lower_not_in_extras : forall fs x, forallb ufield_wf fs = true -> lower_start x = true ->
-  ~ In x ((map (fun u => 95 :: to_snake (uf_name u)) (filter uf_optional fs)
+  ~ In x ((map (fun u => 95 :: to_snake (uf_name u)) (filter sp_presence fs)
            ++ map (fun u => map_name (to_snake (uf_name u))) (filter is_map_kind fs))
           ++ sp_inline_names fs).
 Proof.
@@ -585,14 +589,14 @@ Lemma scope_with_added : forall fs added,
   fields_wf fs = true -> NoDup added ->
   Forall (fun x => lower_start x = true /\ ~ In x (map (fun u => to_snake (uf_name u)) fs)) added ->
   NoDup (map (fun u => to_snake (uf_name u)) fs ++ added
-         ++ (map (fun u => 95 :: to_snake (uf_name u)) (filter uf_optional fs)
+         ++ (map (fun u => 95 :: to_snake (uf_name u)) (filter sp_presence fs)
              ++ map (fun u => map_name (to_snake (uf_name u))) (filter is_map_kind fs))
          ++ sp_inline_names fs).
 Proof.
   intros fs added Hw Ha Hadd. pose proof (fields_wf_nodup_all fs Hw) as Hn. unfold sp_field_scope in Hn.
   pose proof (fields_wf_each fs Hw) as Hw'.
   set (P := map (fun u => to_snake (uf_name u)) fs) in *.
-  set (X := (map (fun u => 95 :: to_snake (uf_name u)) (filter uf_optional fs)
+  set (X := (map (fun u => 95 :: to_snake (uf_name u)) (filter sp_presence fs)
              ++ map (fun u => map_name (to_snake (uf_name u))) (filter is_map_kind fs)) ++ sp_inline_names fs) in *.
   assert (Hn' : NoDup (P ++ X)).
   { unfold X. rewrite app_assoc. exact Hn. }
@@ -774,7 +778,7 @@ Lemma added_scope : forall fs (added : list ofield),
   Forall (fun f => f_optional f = false /\ is_map_field f = false /\ f_inline f = None) added ->
   fields_scope false (map of_ufield fs ++ added) ++ inline_names (map of_ufield fs ++ added) =
     map (fun u => to_snake (uf_name u)) fs ++ map proto_name added
-    ++ (map (fun u => 95 :: to_snake (uf_name u)) (filter uf_optional fs)
+    ++ (map (fun u => 95 :: to_snake (uf_name u)) (filter sp_presence fs)
         ++ map (fun u => map_name (to_snake (uf_name u))) (filter is_map_kind fs))
     ++ sp_inline_names fs
   /\ inline_scopes (map of_ufield fs ++ added) = inline_scopes (map of_ufield fs).
@@ -791,7 +795,7 @@ Proof.
       by (unfold inline_names; apply flat_map_app).
     rewrite In_app, E3, app_nil_r, user_inline_names.
     unfold fields_scope, entry_names. rewrite !filter_app, !map_app, E1, E2. cbn [map]. rewrite !app_nil_r.
-    rewrite (filter_map_comm of_ufield f_optional uf_optional) by (intros x; apply of_ufield_facts).
+    rewrite (filter_map_comm of_ufield f_optional sp_presence) by (intros x; apply of_ufield_facts).
     rewrite (filter_map_comm of_ufield is_map_field is_map_kind) by (intros x; apply of_ufield_facts).
     rewrite !map_map. rewrite <- !app_assoc. f_equal; [|f_equal; f_equal; [|f_equal]];
       apply map_ext; intros u; unfold proto_name; destruct (of_ufield_facts u) as [-> _]; reflexivity.
@@ -885,7 +889,7 @@ Proof.
       { apply no_inline_names. apply Forall_map. apply Forall_forall. intros ev _. reflexivity. }
       rewrite E, Ein, map_map. cbn [fst app].
       pose proof (q_event_opts e Q) as Ho. apply nodup_bytes_NoDup in Ho. fold opts in Ho.
-      destruct (reserved_free_parts e Hr) as [_ [_ [_ [R4 _]]]].
+      destruct (reserved_free_parts e Hr) as [_ [_ [R4 _]]].
       assert (Hcap : forall ev, In ev (e_events e) -> starts_cap (ev_name ev) = true).
       { intros ev Hev. pose proof (q_events e Q) as H. rewrite forallb_forall in H. specialize (H ev Hev).
         apply andb_true_iff in H. destruct H as [H _]. apply andb_true_iff in H. destruct H as [H _].
@@ -942,7 +946,7 @@ Lemma inner_query : forall e, quantified e -> reserved_free e = true -> all_nodu
 Proof.
   intros e Q Hr. unfold query_components. rewrite inner_service. cbn [flat_map map snd method_components mt_name].
   rewrite !inner_scopes_app, !inner_method. cbn [inner_scopes flat_map]. rewrite ?app_nil_r.
-  destruct (reserved_free_parts e Hr) as [_ [_ [_ [_ [_ [R5 [R6 _]]]]]]].
+  destruct (reserved_free_parts e Hr) as [_ [_ [_ [_ [R5 [R6 _]]]]]].
   repeat apply all_nodup_app.
   - apply user_msg_scopes; [exact (sub_wf _ _ (get_keys_sub e) (q_keys_wf e Q))|].
     apply (type_free_of e _ Hr). intros u Hu. apply in_all_keys. now apply get_keys_incl.
@@ -1011,7 +1015,7 @@ Proof.
   intros e s Q Hr Hs. unfold summary_components. rewrite inner_topic. apply all_nodup_app.
   - pose proof (q_summaries e Q) as H. rewrite forallb_forall in H. specialize (H s Hs).
     apply andb_true_iff in H. destruct H as [H _]. apply andb_true_iff in H. destruct H as [_ W].
-    destruct (reserved_free_parts e Hr) as [_ [_ [R3 _]]]. rewrite forallb_forall in R3. specialize (R3 s Hs).
+    destruct (reserved_free_parts e Hr) as [_ [R3 _]]. rewrite forallb_forall in R3. specialize (R3 s Hs).
     rewrite forallb_forall in R3.
     assert (Tf : type_free (s_fields s)).
     { apply (type_free_of e _ Hr). intros u Hu. eapply in_all_summary; eassumption. }
@@ -1053,7 +1057,7 @@ Proof.
   destruct s as [n fs|n fs|n os]; cbn [schema_component inner_scopes flat_map schema_fields] in *; rewrite ?app_nil_r.
   - now apply user_msg_scopes.
   - (* a oneof of the block: options, the proto oneof "type", map entries, inline types *)
-    destruct (reserved_free_parts e Hr) as [_ [_ [_ [_ [R4 _]]]]]. rewrite forallb_forall in R4. specialize (R4 _ Hs).
+    destruct (reserved_free_parts e Hr) as [_ [_ [_ [R4 _]]]]. rewrite forallb_forall in R4. specialize (R4 _ Hs).
     cbn in R4. rewrite forallb_forall in R4.
     assert (Hadd : Forall (fun x => lower_start x = true /\ ~ In x (map (fun u => to_snake (uf_name u)) fs)) [bs "type"]).
     { constructor; [|constructor]. split; [reflexivity|]. intros Hin. apply in_map_iff in Hin. destruct Hin as [u [Eu Hu]].
@@ -1122,7 +1126,7 @@ Theorem full_modulo_reserved : forall e, in_quantifier e = true -> reserved_free
   exists cs, compile e = Ok cs /\ C17_spec e cs.
 Proof.
   intros e Hq Hr. destruct (acceptance e Hq Hr) as [cs Hc]. exists cs. split; [exact Hc|].
-  destruct (full_partial e cs Hc) as [H1 [H2 H3]]. split; [exact H1|]. split; [exact (H2 Hq)|exact (H3 Hq Hr)].
+  destruct (full_partial e cs Hc) as [H1 H2]. split; [exact H1|exact (H2 Hq)].
 Qed.
 
 (* an entity named Page: its own property in the List response is "page", next to the page field *)
